@@ -173,6 +173,19 @@ def evaluate(ctx: Ctx, cases, oracle_only=False):
             valts = [x.get('valt') for x in results]
             if any(repr(a) != repr(v) for a in valts):
                 ctx.oracle_fail('outside-sample', f'{short}: altering Y at unsampled rows {c["alt"]} changes the score {v!r} -> {valts}', case)
+        # through numba_mi (the caller that forwards --mi_stratified_sampling_ratio): same finite value, sample-only as well
+        vns = [x.get('vn') for x in results]
+        name = 'MI-numba-randomized' if c['cc'] else 'MI-numba-3mr'
+        if any(a is None or not math.isfinite(a) for a in vns) or len({repr(a) for a in vns}) != 1:
+            ctx.oracle_fail('numba_mi-allocator-dependent', f'{short}: numba_mi(heuristic={name!r}, ratio={c["r"]!r}) under MALLOC_PERTURB_ {PERTURB} = {vns}', case)
+        else:
+            if not abs(vns[0] - v) <= 1e-7:
+                ctx.corr_fail('numba_mi', f'{short}: numba_mi(heuristic={name!r}) = {vns[0]!r} but the estimator called directly gives {v!r}', case)
+            if c['alt'] is not None:
+                vnalts = [x.get('vnalt') for x in results]
+                if any(repr(a) != repr(vns[0]) for a in vnalts):
+                    ctx.oracle_fail('outside-sample-numba_mi', f'{short}: through numba_mi(heuristic={name!r}, ratio={c["r"]!r}) altering Y at unsampled rows '
+                                    f'{c["alt"]} changes the score {vns[0]!r} -> {vnalts}', case)
         ctx.sample({'family': c['family'], 'n': n, 'r': c['r'], 'cc': c['cc'], 'X': c['X'][:20], 'rows': rows[:20], 'value': v})
 
 
@@ -183,6 +196,9 @@ def corpus():
         {'family': 'F2b', 'Y': X[:], 'X': X[:], 'r': 0.5, 'cc': True, 'sample': True},
         {'family': 'corpus', 'Y': [1, 0, 1, 0, 2, 2, 0, 1], 'X': [0, 1, 0, 1, 2, 2, 1, 0], 'r': 0.5, 'cc': True, 'sample': True},
         {'family': 'corpus', 'Y': [5, 6, 7, 8], 'X': [0, 0, 0, 1], 'r': 0.75, 'cc': False, 'sample': True},
+        # a feature that is constant on every row; the unsampled rows are then altered (unbalanced target strata)
+        {'family': 'const-feature', 'Y': [2, 2, 2, 2], 'X': [0, 1, 0, 0], 'r': 0.5, 'cc': False, 'sample': True},
+        {'family': 'const-feature', 'Y': [3] * 40, 'X': [0] * 30 + [1] * 8 + [2, 2], 'r': 0.25, 'cc': False, 'sample': True},
     ]
 
 
